@@ -135,6 +135,13 @@ func (c *Conn) serverHandshake(ctx context.Context) error {
 		break
 	}
 
+	// Select the per-client configuration from the cookie-verified ClientHello: it is the one that
+	// enters the Finished transcript, so what the server bases its choice on (SNI, ...) is what
+	// the client really sent.
+	if err := c.selectConfigForClient(ctx, clientHello); err != nil {
+		return err
+	}
+
 	// 第二阶段：执行完整握手
 	hs := &serverHandshakeState{
 		c:              c,
@@ -143,6 +150,28 @@ func (c *Conn) serverHandshake(ctx context.Context) error {
 		cookieVerified: true,
 	}
 	return hs.handshake()
+}
+
+// selectConfigForClient calls Config.GetConfigForClient with the cookie-verified ClientHello and
+// installs the returned configuration. The protocol version announced by that ClientHello
+// must lead to the version already in use on the connection.
+func (c *Conn) selectConfigForClient(ctx context.Context, clientHello *clientHelloMsg) error {
+	if c.config.GetConfigForClient != nil {
+		chi := clientHelloInfo(ctx, c, clientHello)
+		configForClient, err := c.config.GetConfigForClient(chi)
+		if err != nil {
+			_ = c.sendAlert(alertInternalError)
+			return err
+		} else if configForClient != nil {
+			c.config = configForClient
+		}
+	}
+	vers, ok := c.config.mutualVersion(roleServer, supportedVersionsFromMax(clientHello.vers))
+	if !ok || vers != c.vers {
+		_ = c.sendAlert(alertProtocolVersion)
+		return fmt.Errorf("dtlcp: client offered only unsupported versions: %x", supportedVersionsFromMax(clientHello.vers))
+	}
+	return nil
 }
 
 // effectiveCookieSecret 返回有效的 cookie 密钥。
@@ -297,16 +326,10 @@ func (c *Conn) readClientHello(ctx context.Context) (*clientHelloMsg, error) {
 		return nil, unexpectedMessageError(clientHello, msg)
 	}
 
-	var configForClient *Config
-	if c.config.GetConfigForClient != nil {
-		chi := clientHelloInfo(ctx, c, clientHello)
-		if configForClient, err = c.config.GetConfigForClient(chi); err != nil {
-			_ = c.sendAlert(alertInternalError)
-			return nil, err
-		} else if configForClient != nil {
-			c.config = configForClient
-		}
-	}
+	// GetConfigForClient is NOT consulted here: this ClientHello may be the first, cookie-less one,
+	// which is neither covered by the cookie nor part of the Finished transcript. The
+	// configuration is selected in serverHandshake from the ClientHello that passed the cookie
+	// check (selectConfigForClient).
 
 	// 仅在首次收到 ClientHello 时进行版本协商
 	if !c.haveVers {
